@@ -390,7 +390,7 @@ impl<'a> CRTDetBuilder<'a> {
         let mut primes = vec![];
         let mut modp = vec![];
         let mut p: u64 = ((1 << 61) / 30) * 30 - 1;
-        'crtloop: while 60 * modp.len() < bits {
+        'crtloop: while 61 * modp.len() < bits + 2 {
             // Previous prime
             p -= 30;
             while !crate::isprime64(p) {
